@@ -565,7 +565,7 @@ func TestEnumerations(t *testing.T) {
 			}
 		}
 	}
-	for _, lim := range []string{"0", "1", "10", "-1", "abc", "", "1.5", "99999999999999999999999", " 3 ", "+2"} {
+	for _, lim := range []string{"0", "1", "10", "-1", "abc", "", "1.5", "99999999999999999999999", " 3 ", "+2", "2147483648", "4294967295", "4294967296", "4294967303", "9223372036854775807"} {
 		lim := lim
 		c := Case{Dir: "server", Kind: "query", Path: "/u/contacts/b/", Query: vdav.CardQuery{Data: vdav.AddrData{Present: true, AllProp: true}, Limit: &lim}}
 		if _, err := strconv.ParseUint(lim, 10, 64); err != nil {
@@ -576,7 +576,7 @@ func TestEnumerations(t *testing.T) {
 		}
 		run(t, nil, c, "enum/limit")
 	}
-	rec.ExhaustiveSub("wire side: 7 outer test x 7 inner test x 9 match-type x 7 negate-condition attribute values (valid and invalid) and 10 nresults texts")
+	rec.ExhaustiveSub("wire side: 7 outer test x 7 inner test x 9 match-type x 7 negate-condition attribute values (valid and invalid) and 15 nresults texts")
 }
 
 func TestClientToWire(t *testing.T) {
@@ -601,7 +601,7 @@ func TestClientToWire(t *testing.T) {
 				c.Query.PFs = append(c.Query.PFs, genPF(rt, false))
 			}
 			if rapid.Bool().Draw(rt, "haslimit") {
-				l := strconv.Itoa(rapid.SampledFrom([]int{-1, 0, 1, 2, 50, 1 << 30}).Draw(rt, "limit"))
+				l := strconv.Itoa(rapid.SampledFrom([]int{-1, 0, 1, 2, 50, 1 << 30, 1 << 31, 1 << 32, 1<<32 + 7, 1 << 62}).Draw(rt, "limit"))
 				c.Query.Limit = &l
 			}
 		}
@@ -638,7 +638,7 @@ func TestWireToBackend(t *testing.T) {
 				c.Query.PFs = append(c.Query.PFs, genPF(rt, true))
 			}
 			if rapid.Bool().Draw(rt, "haslimit") {
-				l := strconv.Itoa(rapid.SampledFrom([]int{0, 1, 2, 50, 1 << 30}).Draw(rt, "limit"))
+				l := strconv.Itoa(rapid.SampledFrom([]int{0, 1, 2, 50, 1 << 30, 1 << 31, 1 << 32, 1<<32 + 7, 1 << 62}).Draw(rt, "limit"))
 				c.Query.Limit = &l
 			}
 		}
